@@ -338,6 +338,26 @@ let run (t : string array) : string =
        | Err e -> "err " ^ err_kind e
        | Panic p -> "panic " ^ panic_kind p
      with Oracle_miss m -> "oracle-miss " ^ m)
+  (* raw_replay <opts> <img> [name:hex|icc:hex]... | records *)
+  | "raw_replay" ->
+    let o = parse_opts t.(1) in
+    let img = parse_img t.(2) in
+    let rec extras i acc = if i >= Array.length t || t.(i) = "|" then (List.rev acc, i) else extras (i + 1) (t.(i) :: acc) in
+    let (ex, stop) = extras 3 [] in
+    let env = env_of_records (split_records t stop) (fun _ -> false) in
+    (try
+       match raw_image_new img.hdr.width img.hdr.height img.hdr.ctype img.hdr.depth img.data with
+       | Err e -> "err " ^ err_kind e
+       | Panic p -> "panic " ^ panic_kind p
+       | Ok r ->
+         let r = List.fold_left (fun r x ->
+             match String.index_opt x ':' with
+             | None -> failwith "bad extra"
+             | Some i ->
+               let n = String.sub x 0 i and d = String.sub x (i + 1) (String.length x - i - 1) in
+               if n = "icc" then raw_add_icc env r (unhex d) else raw_add_chunk r (unhex n) (unhex d)) r ex in
+         res_str hex (raw_create env r o)
+     with Oracle_miss m -> "oracle-miss " ^ m)
   | "preset" -> "ok " ^ fmt_opts (from_preset (z_of_int (int_of_string t.(1))))
   | "default_opts" -> "ok " ^ fmt_opts default_options
   | "crc32" -> Printf.sprintf "ok %d" (int_of_z (crc32 (unhex t.(1))))
